@@ -92,6 +92,7 @@ def run(ctx):
     rep.sample({"table": "opcode_313", "HAVE_ARGUMENT": tabs["opcode_313"]["HAVE_ARGUMENT"],
                 "JREL_OPS": tabs["opcode_313"]["JREL_OPS"][:8]})
     rep.coverage["exhaustive"] = True
+    host_tables(ctx)
     # every op_imports key is served by one of the tables the theorems range over
     listed = set(n.split(":")[0] for n in info)
     for row in ctx.tables["magics"]["accepted"]:
@@ -99,6 +100,56 @@ def run(ctx):
             if row.get(k) and row[k] not in listed:
                 rep.violation("uncovered-table:%s" % row[k], "magic %d selects table %s which the theorems do not cover" % (row["magic"], row[k]),
                               {"magic": row["magic"]}, found_input=False)
+
+
+def table_attr(k):
+    """the attributes that make up an opcode table (not typing aliases, helper functions or the module's own locals())"""
+    return (k.isupper() or k.startswith("has") or
+            k in ("opmap", "opname", "oppop", "oppush", "cmp_op", "nofollow", "version_tuple", "python_version", "is_pypy",
+                  "python_implementation", "nullaryop", "unaryop", "binaryop", "ternaryop", "nullaryloadop", "storeop", "callop",
+                  "varargsop", "pseudoop", "extended_arg_shift"))
+
+
+def host_tables(ctx):
+    """the tables must not depend on the host Python: every public attribute of every table module
+    (get_opcode_module(version, variant)) under the oldest and newest installed host (all hosts in
+    the thorough tier) against the main host"""
+    from worker import Worker
+    rep = ctx.rep
+    tabs = ctx.tables["optables"]
+    keys = []
+    for name, t in sorted(tabs.items()):
+        if t.get("version_tuple"):
+            keys.append((name, list(t["version_tuple"][:2]), "pypy" if t.get("is_pypy") else None))
+    hosts = dict(core.HOSTS) if ctx.thorough else {k: v for k, v in core.HOSTS.items() if k in (min(core.HOSTS), max(core.HOSTS))}
+    wm = Worker()
+    try:
+        base = {name: wm.r("optable", version=v, variant=var) for name, v, var in keys}
+    finally:
+        wm.close()
+    for hv, path in sorted(hosts.items()):
+        if path == core.MAIN_HOST:
+            continue
+        hw = Worker(path)
+        try:
+            for name, v, var in keys:
+                got = hw.r("optable", version=v, variant=var)
+                rep.count(1, ("host-table", hv, name))
+                a, b = base[name].get("attrs"), got.get("attrs")
+                if a is None or b is None or base[name].get("name") != got.get("name"):
+                    if base[name] != got:
+                        rep.violation("host-table:%d.%d:%s" % (hv[0], hv[1], name), "get_opcode_module(%s, %s) gives %s under host %d.%d and %s under the main host"
+                                      % (v, var, str(got)[:80], hv[0], hv[1], str(base[name])[:80]), {"table": name, "host": "%d.%d" % hv})
+                    continue
+                # 'loc' is locals() of the table module itself (its own namespace, host builtins included)
+                diff = sorted(k for k in set(a) | set(b) if a.get(k) != b.get(k) and table_attr(k))
+                if diff:
+                    rep.violation("host-table:%d.%d:%s:%s" % (hv[0], hv[1], name, diff[0]),
+                                  "table %s differs between host %d.%d and the main host in %s" % (name, hv[0], hv[1], diff[:6]),
+                                  {"table": name, "host": "%d.%d" % hv, "attributes": diff[:20],
+                                   "call": "vars(get_opcode_module(%r, %r)) under %s" % (tuple(v), var, path)})
+        finally:
+            hw.close()
 
 
 def replay(ctx, rp):
